@@ -16,8 +16,13 @@
 EXTENDS Integers, Sequences, FiniteSets, TLC
 
 CONSTANTS Callers, MaxCalls,
-          Ret,        \* "comp" | "fact"
+          Ret,        \* "comp" | "fact": calls of ONE factory made from a component / factory constructor;
+                      \* "new": Registry.New called concurrently, every call with its OWN config map, by callers that ask for
+                      \*        the same registry entry (g1, g2) and for a different one (g3)
           Local       \* TRUE: the decoded config is a variable of the call; FALSE: of the factory closure (wrong)
+
+\* which registry entry (plugin type, name) a caller asks for (Ret = "new")
+EntryOf(g) == IF g = "g3" THEN "entry2" ELSE "entry1"
 
 VARIABLES pc,       \* caller -> "idle" | "decoded"
           ncalls,   \* caller -> calls started
@@ -33,10 +38,12 @@ Init == /\ pc = [g \in Callers |-> "idle"] /\ ncalls = [g \in Callers |-> 0] /\ 
 \* conf, err = getMaybeConf()
 Decode(g) == /\ pc[g] = "idle" /\ ncalls[g] < MaxCalls
              /\ ncalls' = [ncalls EXCEPT ![g] = @ + 1]
-             /\ IF Ret = "comp"
+             /\ IF Ret \in {"comp", "new"}
                 THEN /\ stamp' = stamp + 1
                      /\ mine' = [mine EXCEPT ![g] = stamp + 1]
-                     /\ slot' = IF Local THEN [slot EXCEPT ![g] = stamp + 1] ELSE [h \in Callers |-> stamp + 1]
+                     \* wrong variants: the config lives in the factory closure (comp) / in the registry entry (new)
+                     /\ slot' = IF Local THEN [slot EXCEPT ![g] = stamp + 1]
+                                ELSE [h \in Callers |-> IF Ret = "new" /\ EntryOf(h) # EntryOf(g) THEN slot[h] ELSE stamp + 1]
                 ELSE UNCHANGED <<stamp, mine, slot>>          \* decoded once, at creation: stamp 0
              /\ pc' = [pc EXCEPT ![g] = "decoded"]
              /\ UNCHANGED done
@@ -50,7 +57,7 @@ Spec == Init /\ [][Next]_vars
 
 \* THE PROPERTY for overlapping calls (over what products report):
 \* component constructor: every product is built from the configuration ITS OWN call decoded, no two products share one
-OwnConfig(calls) == Ret = "comp" => /\ \A c \in calls : c.got = c.dec
+OwnConfig(calls) == Ret \in {"comp", "new"} => /\ \A c \in calls : c.got = c.dec
                                     /\ \A c, d \in calls : c # d => c.got # d.got
 \* factory constructor: every product sees THE configuration decoded at creation
 OneConfig(calls) == Ret = "fact" => \A c \in calls : c.got = 0
